@@ -4,12 +4,14 @@ SPEC = dict(
     level="exploration",
     level_text="Runtime monitor at two layers while real threads race: (1) every user aio is wrapped in a record whose callback checks no overlap, callbacks <= submissions, result-code legitimacy (NNG_ETIMEDOUT never before the configured duration, cancel/abort/stop/closed codes only if issued), no callback after nng_aio_stop/free returned, exactly one callback per submission at the end (or exactly one of {skip-callback flag set, callback}; for aios without callback the library's own completion events are counted), and conservation (an operation that reported an error had no effect: pair1/pair0/push sends, pair1/pull/pair0/REP-context receives, REQ-context sends, stream receives); (2) guarded shadow state inside core/aio.c and core/taskq.c (second completion of one operation, start/reset while active, busy-count underflow) covers the library's internal aios. Interleavings are sampled: seeded jitter at every lock/cv point or a long delay at one named race window (abort/finish after unlock, expire before/between cancels, stop before wait, task before enqueue/before cb), thread-pool shapes from {1 expire, 2 task} to {8,16}; plus an ENUMERATED grid around one expiry batch (one expire queue; gate, P, Q with the same deadline; cancel/abort/stop of Q issued when the loop picks P; three simultaneous delays permuted so that every order of {loop reaches Q, canceller calls Q's cancel function, re-submission from Q's callback} occurs; Q a sleep or a provider operation); repeated under TSan in the thorough tier.",
     level_note="Sampled schedules, real time: a race window that no named site or lock boundary brackets can be missed. Operation kinds driven: sleep, harness-implemented provider (public nng_aio_start/finish), socket recv and send (pair1, with delivery conservation), receive of pull/sub/bus/pair0/raw rep, send of push/pair0/raw req, REQ context send, REP context recv, dialer_start_aio (reachable, refused, nobody listening), stream accept, stream recv, stream dial (tcp by address and by name, ipc, refused) with immediate re-dial from the callback, surveyor receive (socket and contexts; receives posted late in a survey are clamped to its deadline, later ones are not), REQ context receive, stream send into a connection nobody reads, nng_device_aio over two raw pair0 sockets; variants per aio: nng_aio_skip_callback before every submission (public entry points reset the request, so only a provider that completes without nng_aio_start honours it), aio without callback + nng_aio_wait, NNG_DURATION_DEFAULT with the owner's send/receive timeout option raised between submissions, nng_aio_set_expire, a second terminating action from another thread (cancel/abort/stop/close pairs, free next to close), re-submission from the callback while nng_aio_stop is in progress, one submission after nng_aio_stop returned (must not be started); NNG_ECANCELED / abort code are accepted only if such a call had not yet returned when the operation was submitted; an early NNG_ETIMEDOUT is filed under the known expire-loop window only if the loop picked the aio before this submission and no timeout callback has consumed that pick; a third of the aios have their timeout set once and are re-used without setting it again; actions cancel, abort, stop, close of the owner, and nng_aio_free of the aio in flight; after stop/wait/free returned no callback of that aio may still be executing. 'Never early' uses a 1 ms allowance for the library's millisecond clock.",
-    technique="runtime exactly-once monitor (boundary records + in-library shadow state) under schedule perturbation, ASan/UBSan, TSan",
+    technique="runtime exactly-once monitor (boundary records + in-library shadow state) under schedule perturbation, ASan/UBSan, TSan; valgrind memcheck (definedness of every value that steers a branch, an address or a system call) on a sample of the same workload",
     rule="a case = one operation kind, 1-6 aios with seeded timeout / one or two actions (cancel, abort, stop, close, free, none) issued around the nominal completion instant, or one point of the enumerated expiry-batch grid (678 points), seeded re-submission from inside the callback, a completer thread and one perturbation policy; a class is (kind, result) or (kind, action, outcome, perturbation site) actually observed in a callback",
     assumptions=["interleavings are sampled, not enumerated", "wall-clock is used only one-sidedly (never earlier than T-1ms)"],
     quick=dict(runs=[R("c02_aio", "asan", 8, 260, "mixed", 600),
                      R("c02_aio", "asan", 4, 300, "provider", 600),
-                     R("c02_aio", "asan", 8, 678, "grid", 600)],
+                     R("c02_aio", "asan", 8, 678, "grid", 600),
+                     # valgrind memcheck lines: only memcheck reports are judged (see vf FLAVORS["vg"])
+                     R("c02_aio", "vg", 4, 30, "mixed", 1800)],
                floor={"operations": 6000, "@classes": 600, "hook_aio_finish": 8000, "not_running_checks": 5000, "free_in_flight": 100,
                       # operation kinds: completion won and cancel / timeout / stop won, for every kind
                       "@class:sleep/ok": 1, "@class:sleep/canceled": 1, "@class:sleep/stopped": 1, "@class:sleep/timedout": 1,
@@ -41,7 +43,10 @@ SPEC = dict(
                         R("c02_aio", "asan", 8, 2034, "grid", 3000),
                         R("c02_aio", "tsan", 8, 400, "mixed", 3000),
                         R("c02_aio", "tsan", 4, 600, "provider", 3000),
-                        R("c02_aio", "tsan", 4, 678, "grid", 3000)],
+                        R("c02_aio", "tsan", 4, 678, "grid", 3000),
+                        # valgrind memcheck lines: only memcheck reports are judged (see vf FLAVORS["vg"])
+                        R("c02_aio", "vg", 8, 120, "mixed", 1800),
+                        R("c02_aio", "vg", 4, 60, "provider", 1800)],
                floor={"operations": 60000, "@classes": 1000, "grid_anchored": 2500, "skip_inline": 500, "nocb_operations": 2000, "two_action_records": 3000, "start_after_stop_refused": 3000,
                       "recv_conservation2_checked": 300, "send_conservation2_checked": 300, "stream_conservation_checked": 200, "conservation_checked": 300, "send_conservation_checked": 300,
                       "default_timeout_submissions": 1000, "set_expire_submissions": 2000},
